@@ -490,6 +490,47 @@ pub fn run(ctx: &Ctx) -> Result<(), String> {
     if let Some(e) = failed.lock().unwrap().take() {
         return Err(e);
     }
+    // fault injection on (deliberately invalid replies): a long run of requests on ONE server, singly
+    // and in full batches; no reply, valid or deliberately invalid, is longer than its request
+    let fault_modes: Vec<(u8, u8, usize, usize)> = vec![(1, 50, 40, 1), (64, 50, 6, 64), (3, 25, 30, 3)]; // batch_size, fault, rounds, per round
+    let fault_n = AtomicU64::new(0);
+    par_for(fault_modes.len() * 2, 1, |j, _| {
+        let (bs, fault, rounds, per) = fault_modes[j / 2];
+        let v = if j % 2 == 0 { Version::Classic } else { Version::Ietf13 };
+        let mut srv = match Srv::new(&SrvCfg { batch_size: bs, fault, ..Default::default() }) {
+            Ok(s) => s,
+            Err(e) => {
+                *failed.lock().unwrap() = Some(e);
+                return;
+            }
+        };
+        for round in 0..rounds {
+            let clients: Vec<Client> = (0..per).map(|_| Client::new()).collect();
+            let reqs: Vec<Vec<u8>> = (0..per).map(|i| rtref::responder::std_request(v, &nonce(0xfa17_0000 + (round * 64 + i) as u64, v.nonce_len()))).collect();
+            for (c, r) in clients.iter().zip(&reqs) {
+                c.send(srv.addr, r);
+            }
+            transitions.fetch_add(per as u64 + 2, Relaxed);
+            if let Err(p) = srv.settle() {
+                ctx.violation("panic", "request-gate", "fault-injection-on", json!({"kind":"fault-run","batch_size":bs,"fault_percentage":fault,"version":v.name(),"round":round,"panic":p}));
+                return;
+            }
+            for (i, c) in clients.iter().enumerate() {
+                fault_n.fetch_add(1, Relaxed);
+                for (r, _) in c.drain() {
+                    if r.len() > reqs[i].len() {
+                        ctx.violation("amplification", "request-gate", "fault-injection-on", json!({"kind":"fault-run","batch_size":bs,"fault_percentage":fault,"version":v.name(),"round":round,"request_len":reqs[i].len(),"reply_len":r.len(),
+                            "message":"with fault injection on, a reply is longer than the request it answers"}));
+                        return;
+                    }
+                }
+            }
+        }
+    });
+    if let Some(e) = failed.lock().unwrap().take() {
+        return Err(e);
+    }
+    ctx.cov("fault_injection_requests", json!(fault_n.load(Relaxed)));
     let cls = classes.lock().unwrap().clone();
     ctx.cov("states", json!(cls.len()));
     ctx.cov("transitions", json!(transitions.load(Relaxed)));
@@ -499,7 +540,7 @@ pub fn run(ctx: &Ctx) -> Result<(), String> {
     ctx.cov("outcome_classes", json!(cls));
     ctx.cov("exhaustive", json!(true));
     ctx.cov("bound", json!({"lengths": ctx.tier.pick("0..=2048 every length, then every 257th, top 17", "every length 0..=65507"), "nonce_lengths":"every multiple of 4 in 0..=1484", "full_batches": full_bs.len()}));
-    ctx.cov("rule", json!("each datagram is one history on a real in-process Server: send from a fresh socket, process_events to quiescence, collect, then a valid sentinel request (alternating protocol) must be answered with an authentic reply. Datagram space: random bytes / valid classic and IETF requests re-padded, truncated, extended at every length of the tier's length set; every frame-length deviation; nonces of every aligned length 0..=1484 in minimal and 1500-byte requests for both protocols; field mutants; framed requests with every VER list of length <= 3 over {draft-13, classic 0, unknown}; full batches (k = batch_size) of canonical and 640-byte-nonce requests. Oracle: 3-valued classifier from the statement (must-answer canonical, may for other nonce lengths / draft-13 beyond the 4th VER entry, must-not otherwise); reply => authentic for that request; always len(reply) <= len(request). states = distinct (family, class, #replies) outcome classes; non-trivial = datagram of length >= 1024 or one that is not must-not."));
+    ctx.cov("rule", json!("each datagram is one history on a real in-process Server: send from a fresh socket, process_events to quiescence, collect, then a valid sentinel request (alternating protocol) must be answered with an authentic reply. Datagram space: random bytes / valid classic and IETF requests re-padded, truncated, extended at every length of the tier's length set; every frame-length deviation; nonces of every aligned length 0..=1484 in minimal and 1500-byte requests for both protocols; field mutants; framed requests with every VER list of length <= 3 over {draft-13, classic 0, unknown}; full batches (k = batch_size) of canonical and 640-byte-nonce requests; long runs of valid requests on one server with fault_percentage 50 / 25 (singly, batches of 3, full batches of 64). Oracle: 3-valued classifier from the statement (must-answer canonical, may for other nonce lengths / draft-13 beyond the 4th VER entry, must-not otherwise); reply => authentic for that request; always len(reply) <= len(request). states = distinct (family, class, #replies) outcome classes; non-trivial = datagram of length >= 1024 or one that is not must-not."));
     ctx.sample(json!({"family":"classic-nonce-length","nonce_len":1008,"request_len":1024}));
     ctx.sample(json!({"family":"ietf-frame-length","frame_len_field":"real+4","request_len":1024}));
     ctx.sample(json!({"family":"random","len":1500}));
